@@ -349,3 +349,7 @@ def gen_ops(rng, tier, ctx=None):
 
 def nontrivial(line):
     return line if line.startswith("mpf_") and "[" in line or line.startswith("mpf_set_") else None
+
+
+# source pins: the C files the Lean model cites (see tools/pins.py)
+PINS = [('mpf/abs.c', None), ('mpf/add.c', None), ('mpf/add_ui.c', None), ('mpf/ceilfloor.c', None), ('mpf/cmp.c', None), ('mpf/div.c', None), ('mpf/div_2exp.c', None), ('mpf/div_ui.c', None), ('mpf/eq.c', None), ('mpf/get_prc.c', None), ('mpf/init2.c', None), ('mpf/int_p.c', None), ('mpf/mul.c', None), ('mpf/mul_2exp.c', None), ('mpf/mul_ui.c', None), ('mpf/neg.c', None), ('mpf/set.c', None), ('mpf/set_d.c', None), ('mpf/set_prc.c', None), ('mpf/set_prc_raw.c', None), ('mpf/set_q.c', None), ('mpf/set_si.c', None), ('mpf/set_ui.c', None), ('mpf/set_z.c', None), ('mpf/sqrt.c', None), ('mpf/sqrt_ui.c', None), ('mpf/sub.c', None), ('mpf/sub_ui.c', None), ('mpf/trunc.c', None), ('mpf/ui_div.c', None), ('mpf/ui_sub.c', None)]
